@@ -304,7 +304,14 @@ fn process_deposits_for_single_pool<C: ContentAddrStore>(
         .max(sum_mtsqrt);
     // main logic here
     let total_liqs = if let Some(mut pool_state) = state.pools.get(pool) {
+        let liqs_before = pool_state.liqs;
         let liq = pool_state.deposit(total_lefts, total_rights);
+        // The pool's record of its liquidity saturates at 128 bits (a deposit of 2^120 on both sides into a pool of 2^120
+        // against 1 mints 2^180). Tokens handed out beyond that record could never all be redeemed, so deposits that the
+        // record cannot hold are left as they are.
+        if liqs_before.checked_add(liq) != Some(pool_state.liqs) {
+            return;
+        }
         state.pools.insert(*pool, pool_state);
         liq
     } else {
